@@ -173,6 +173,46 @@ fn track_read(b: &[u8; 6]) -> Result<Result<Track, ()>, ()> {
     guard(|| Track::read_le(&mut Cursor::new(&b[..])).map_err(|_| ()))
 }
 
+/// a reader that hands over at most `k` bytes per read() call (a socket, a buffered reader at its buffer boundary)
+struct Chunked<'a> {
+    data: &'a [u8],
+    pos: usize,
+    k: usize,
+}
+impl std::io::Read for Chunked<'_> {
+    fn read(&mut self, buf: &mut [u8]) -> std::io::Result<usize> {
+        let n = buf.len().min(self.k).min(self.data.len() - self.pos);
+        buf[..n].copy_from_slice(&self.data[self.pos..self.pos + n]);
+        self.pos += n;
+        Ok(n)
+    }
+}
+impl std::io::Seek for Chunked<'_> {
+    fn seek(&mut self, to: std::io::SeekFrom) -> std::io::Result<u64> {
+        let p = match to {
+            std::io::SeekFrom::Start(x) => x as i64,
+            std::io::SeekFrom::Current(d) => self.pos as i64 + d,
+            std::io::SeekFrom::End(d) => self.data.len() as i64 + d,
+        };
+        if p < 0 {
+            return Err(std::io::Error::new(std::io::ErrorKind::InvalidInput, "seek before start"));
+        }
+        self.pos = (p as usize).min(self.data.len());
+        Ok(self.pos as u64)
+    }
+}
+/// the same six bytes arriving in pieces are the same configuration, and the next value in the stream is still in step
+fn track_chunk_ok(c: &[u8; 6], t: &Track) -> bool {
+    (1..=5usize).all(|k| {
+        let mut two = c.to_vec();
+        two.extend_from_slice(c);
+        let mut r = Chunked { data: &two, pos: 0, k };
+        let a = guard(|| Track::read_le(&mut r).map_err(|_| ()));
+        let b = guard(|| Track::read_le(&mut r).map_err(|_| ()));
+        matches!((a, b), (Ok(Ok(x)), Ok(Ok(y))) if x == *t && y == *t)
+    })
+}
+
 fn track_events(w: &mut impl Write, rng: &mut StdRng, randoms: usize) -> usize {
     let mut n = 0;
     let up = b"ABCDEFGHIJKLMNOPQRSTUVWXYZ";
@@ -218,7 +258,7 @@ fn track_events(w: &mut impl Write, rng: &mut StdRng, randoms: usize) -> usize {
                                _ => false,
                            },
                            "full": cps(&t.complete_name()),
-                           "lic": format!("{:?}", t.license()), "re": re})
+                           "lic": format!("{:?}", t.license()), "re": re, "chunk_ok": track_chunk_ok(c, &t)})
                 );
                 n += 1;
             },
